@@ -16,6 +16,8 @@ var propTable = map[string]propFn{
 	"C04": checkC04,
 	"C05": checkC05,
 	"C10": checkC10,
+	"C11": checkC11,
+	"C12": checkC12,
 	"C14": checkC14,
 	"C19": checkC19,
 }
